@@ -226,7 +226,7 @@ sprh('PpalHeader_Create', ['C09', 'C18'], replace=['SectionHeader_ctor2']); sprh
 sprh('Tileset_ValidateFileSignatureHeader', ['C09', 'C11'], reach=EXC2); sprh('Tileset_ValidatePaletteHeader', ['C09', 'C11'], reach=EXC2)
 sprh('Tileset_CalculatePixelHeaderLength', ['C09']); sprh('Tileset_ValidatePixelHeader', ['C09', 'C11'], reach=EXC2, replace=['Tileset_CalculatePixelHeaderLength'])
 sprh('Tileset_CalculatePbmpSectionSize', ['C09'], replace=['Tileset_CalculatePixelHeaderLength']); sprh('Tileset_ValidateTileset', ['C09', 'C11'], reach=EXC2)
-sprh('Tileset_ReadCustomTileset', ['C09', 'C11'], reach=EXC2, replace=RD + ['SectionHeader_ctor0', 'Tileset_ValidateFileSignatureHeader', 'TilesetHeader_Validate', 'PpalHeader_Validate', 'Tileset_ValidatePaletteHeader', 'Tileset_ValidatePixelHeader',
+sprh('Tileset_ReadCustomTileset', ['C09', 'C11'], reach=EXC2, plain_ui=True, replace=RD + ['SectionHeader_ctor0', 'Tileset_ValidateFileSignatureHeader', 'TilesetHeader_Validate', 'PpalHeader_Validate', 'Tileset_ValidatePaletteHeader', 'Tileset_ValidatePixelHeader',
      'BitmapFile_CreateIndexed', 'BitmapFile_SwapRedAndBlue', 'Tileset_ValidateTileset'], flags=['--object-bits', '12'], timeout=900,
      trusted=[KR_TRUST, 'BitmapFile::CreateIndexed by the contract proved in group bmph.BitmapFile_CreateIndexed; BitmapFile::SwapRedAndBlue as an assumed frame contract'],
      what='custom tileset loader on arbitrary bytes: safe, short inputs refused, exact consumption, result is a valid top-down tileset picture')
@@ -404,8 +404,8 @@ MAPIO_R = RD + ['vec_Tile_resize', 'vec_u32_resize', 'Map_ReadTilesetSources', '
                 'Map_CheckMinVersionTag', 'MapHeader_WidthInTiles', 'MapHeader_TileCount', 'MapHeader_ctor', 'Map_ctor', 'IsPowerOf2', 'Log2OfPowerOf2', 'Wr_Write']
 def mapio(fn, props, reach=EXC2, replace=(), trusted=None, **kw):
     G('mapio.' + fn, props, 'mapio', ('SavedGameUnits_' if fn == 'CheckSizeOfUnit' else 'Map_') + fn, replace=MAPIO_R + list(replace), reach=reach, trusted=trusted or MAPIO_TRUST, **kw)
-mapio('SkipSaveGameHeader', ['C07']); mapio('ReadMapBeginning', ['C07', 'C06'], replace=['Map_ReadTilesetHeader'], timeout=900, flags=['--object-bits', '12'])
-mapio('ReadTilesetHeader', ['C07', 'C06']); mapio('ReadVersionTag', ['C07', 'C06']); mapio('ReadTileGroup', ['C07', 'C06'], flags=['--object-bits', '12'])
+mapio('SkipSaveGameHeader', ['C07']); mapio('ReadMapBeginning', ['C07', 'C06'], replace=['Map_ReadTilesetHeader'], timeout=900, flags=['--object-bits', '12'], plain_ui=True)
+mapio('ReadTilesetHeader', ['C07', 'C06']); mapio('ReadVersionTag', ['C07', 'C06']); mapio('ReadTileGroup', ['C07', 'C06'], flags=['--object-bits', '12'], plain_ui=True)
 SGU_R = ['vec_ObjectType1_resize', 'SavedGameUnits_CheckSizeOfUnit', 'Rd_ReadUnits', 'Rd_ReadFreeUnits', 'Rd_ReadU32T']
 mapio('ReadSavedGameUnits', ['C07'], replace=SGU_R, flags=['--object-bits', '12', '--slice-formula'], timeout=900, defines=['OP2_SGU_LIGHT'],
       what='saved-game unit section on arbitrary bytes: memory safe (all generated checks), stream stays a valid K_R stream on both exits')
@@ -415,7 +415,7 @@ G('mapio.ReadSavedGameUnits.content', ['C07'], 'mapio', 'Map_ReadSavedGameUnits'
 mapio('CheckSizeOfUnit', ['C07'])
 mapio('WriteTilesetSources', ['C06', 'C18'], replace=['Writer_WriteSized_u32_str'], defines=['OP2_BOUNDED=4'], timeout=600, bounded='<= 4 tileset sources, names <= 64 bytes (the unbounded quantified prefix-sum proof did not close on cvc5 in 600 s)',
       what='bounded stand-in: tileset source table length equals the description (tile count written iff the name is not empty); proved by loop contract for <= 4 sources')
-mapio('Write', ['C06', 'C18'], reach=EXC2, replace=['Map_CreateHeader', 'Map_WriteTilesetSources_U', 'Map_WriteTileGroups_U', 'Writer_WriteSized_u32_vec_TileMapping', 'Writer_WriteSized_u32_vec_TerrainType'], flags=['--object-bits', '12'], timeout=600,
+mapio('Write', ['C06', 'C18'], reach=EXC2, plain_ui=True, replace=['Map_CreateHeader', 'Map_WriteTilesetSources_U', 'Map_WriteTileGroups_U', 'Writer_WriteSized_u32_vec_TileMapping', 'Writer_WriteSized_u32_vec_TerrainType'], flags=['--object-bits', '12'], timeout=600,
       what='map writer: sections in the order and with the sizes the reader consumes; version tags, clip rectangle, TILE SET marker and tile bytes at the offsets the layout gives; refusal writes nothing')
 RS_R = ['Map_SkipSaveGameHeader_U', 'Map_ReadMapBeginning_U', 'Map_ReadVersionTag_U', 'Map_ReadSavedGameUnits_U', 'Map_ReadTileGroups_U']
 RS_T = MAPIO_TRUST + ['the steps of ReadMap / ReadSavedGame by use-mode framing contracts (ghost step counter and ghost lengths); their own behaviour: groups mapio.SkipSaveGameHeader, ReadMapBeginning, ReadVersionTag, ReadSavedGameUnits, ReadTileGroups']
